@@ -17,6 +17,18 @@ def gen(tier, seed, salt, n_quick, n_thorough, fixed=True):
                                                                                          "relative_match_len": 1.0, "scorer": "shipped", "debug": False}})
             cases.append({"g": "G1/fixed", "t": t, "ts": "2020-02-29T23:59:59.999999", "o": {"latent_time": True, "max_stack_depth": 0,
                                                                                               "relative_match_len": 0.5, "scorer": "constant", "debug": False}})
+        # weekday + day of month: the rule scans forward for the next date with both; days 29-31 make the scan long
+        k = 0
+        for y in range(2020, 2032):
+            for mth in range(1, 13):
+                for wd in ("monday", "tuesday", "mittwoch", "thursday", "freitag", "saturday", "sonntag"):
+                    k += 1
+                    if tier != "thorough" and k % 2:
+                        continue
+                    dd = (31, 31, 31, 30, 31, 29)[k % 6]
+                    t = ["%s %dth" % (wd, dd) if dd != 31 else "%s 31st" % wd, "%s der %d." % (wd, dd), "%s %d." % (wd, dd)][k % 3]
+                    cases.append({"g": "G1/weekday+day-of-month", "t": t, "ts": "%04d-%02d-15T09:30:00" % (y, mth),
+                                  "o": {"latent_time": True, "max_stack_depth": 10, "relative_match_len": 1.0, "scorer": "shipped", "debug": False}})
     n = n_thorough if tier == "thorough" else n_quick
     for i in range(n):
         g, t = T.text_case(r, pools)
